@@ -515,7 +515,7 @@ def full_stack(ctx, thorough, rng):
     for lat in (0, 1, 8, 24, 39, 41, 56, 200):
         for silent in (None, 0, 3, 5):
             scen.append(dict(inst=fullstack.INST, latency=lat, silent_from=silent, horizon=lat + 120))
-    for refuse in (8, 24, 33, 48):
+    for refuse in (8, 15, 17, 24, 31, 33, 48):
         scen.append(dict(inst=fullstack.INST, refuse_until=refuse, horizon=200))
     for _ in range(40 if thorough else 8):
         seg = [rng.choice([1, 1, 2, 3, 5, 7, 13, 40]) for _ in range(rng.randint(1, 5))]
@@ -561,6 +561,10 @@ def full_stack(ctx, thorough, rng):
                 why = "init() returned %s after %d ticks (the limit is %d)" % (res, t, TIMEOUT)
             elif res is False and t != TIMEOUT:
                 why = "init() returned False after %d ticks, before the %d-tick limit" % (t, TIMEOUT)
+            elif res is False and sc.get("refuse_until") is not None and ((sc["refuse_until"] + 15) // 16) * 16 <= 32:
+                # connection attempts are 2 s (16 ticks) apart: the first one after the console became reachable is well inside the limit,
+                # the console answers everything at once - a connect delay below 5 s
+                why = "init() returned False although the console accepts connections from tick %d on (attempts are due at 0, 16, 32) and answers every request" % sc["refuse_until"]
             elif res is True and b["view"] != ref_view and sc.get("silent_from") is None:
                 why = "init() returned True but the object model differs from the one a plainly answering console yields"
             elif res is True and sc.get("silent_from") is not None:
@@ -572,7 +576,7 @@ def full_stack(ctx, thorough, rng):
                               gen=gen, scenario=key, implementation_output={"init_result": res, "init_done_at": t}, spec_verdict=why)
                 break
     ctx.coverage["rule"] += ("  Full stack: the real API object over the real socket and the in-memory transport; connect latency 0..200 ticks x console silent "
-                             "after 0 / 3 / 5 answers or answering, a refusing network for 8..48 ticks, answers cut into random segments with unknown / duplicate / "
+                             "after 0 / 3 / 5 answers or answering, a refusing network for 8..48 ticks (one or two refused attempts before the console is reachable: init() must then return True), answers cut into random segments with unknown / duplicate / "
                              "foreign-addressed / unsolicited frames in front: init() returns within 40 ticks, False exactly at 40, True only with the complete model.")
 
 
